@@ -70,6 +70,31 @@ func c02Enumerate(tier string, seed int64, emit func(string, any)) {
 			}
 		}
 	}
+	// operands that END in a postfix form (index, attribute, call, method call, slice, parenthesis) or start with a prefix
+	// operator, on either side of every operator: the token after ']' / ')' / an attribute name decides how it is read
+	{
+		pre := []*Node{Assign("p", Arr(Int(1), Int(2), Int(3))), Assign("q", &Node{K: KDict, Kids: []*Node{Str("k"), Int(1)}}), {K: KFunc, S: "g", Params: []string{"a"}, Body: []*Node{Var("a")}}, Assign("w", Int(2))}
+		p, q := Var("p"), Var("q")
+		post := []*Node{
+			{K: KIndex, A: p, B: Int(0)}, {K: KIndex, A: p, B: Int(-1)}, {K: KIndex, A: q, B: Str("k")}, {K: KAttr, A: q, S: "k"}, Call(Var("g"), Int(1)), Method(p, "len"), Method(p, "sum"), {K: KSlice, A: p, B: Int(0), C: Int(1)},
+			{K: KIndex, A: Arr(Int(4), Int(5)), B: Int(1)}, {K: KIndex, A: &Node{K: KIndex, A: Arr(Arr(Int(7))), B: Int(0)}, B: Int(0)}, Un("-", Var("w")), Var("w"),
+		}
+		others := []*Node{Int(1), Int(0), Str("ab"), Var("w"), {K: KIndex, A: p, B: Int(1)}}
+		for _, op := range c02BinOps {
+			for _, a := range post {
+				for _, b := range others {
+					one("A operators x postfix operands", append(append([]*Node{}, pre...), Bin(op, a, b)))
+					one("A operators x postfix operands", append(append([]*Node{}, pre...), Bin(op, b, a)))
+				}
+				// as a condition, an assigned value, an array element, a call argument, a ternary condition
+				one("A operators x postfix operands", append(append([]*Node{}, pre...), &Node{K: KIf, A: Bin(op, a, Int(1)), Body: []*Node{Assign("w", Int(9))}}, Var("w")))
+				one("A operators x postfix operands", append(append([]*Node{}, pre...), Assign("y", Bin(op, a, Int(1))), Var("y")))
+				one("A operators x postfix operands", append(append([]*Node{}, pre...), Arr(Bin(op, a, Int(1)), Int(7))))
+				one("A operators x postfix operands", append(append([]*Node{}, pre...), &Node{K: KTern, A: Bin(op, a, Int(1)), B: Int(5), C: Int(6)}))
+				one("A operators x postfix operands", append(append([]*Node{}, pre...), &Node{K: KWhile, A: Bin("&&", Bin("<", Var("w"), Int(4)), Bin(op, a, Int(1))), Body: []*Node{Assign("w", Bin("+", Var("w"), Int(1)))}}, Var("w")))
+			}
+		}
+	}
 	for _, a := range c02Leaves() {
 		one("A operators x types", []*Node{Un("-", a)})
 		one("A operators x types", []*Node{Un("+", a)})
